@@ -103,6 +103,7 @@ func runC17(p *core.Prog, r *core.Result) {
 		"R17.7 a glob set is applied to each path separately: no directory walk prunes a subtree (SkipDir/SkipAll) depending on a match of the directory's own path",
 		"R17.9 a glob() builtin returns a path only where that very string was matched by the include set and not matched by the exclude set: every element added to a result is added on the edge include.MatchString(x) && !exclude.MatchString(x) for the same x (no shortcut that answers a pattern from the file system, where path normalisation makes non-canonical spellings 'match')",
 		"R17.10 a package is matched against the ignore set under its own path, as the label names it (a slice of the package label): no lexical normaliser of path or path/filepath (Rel, Clean, Join, ...) lies in between, since those never return the empty path of the root package but \".\"",
+		"R17.11 every other character literally, whatever its encoding: the translation copies pattern bytes as bytes - no conversion of an integer (a byte of the pattern) to a string, which re-encodes every byte above 0x7f as a two-byte code point, so that a pattern with a non-ASCII character no longer matches the path that spells it",
 		"R17.6 the compiled set is a function of the given pattern list alone (no package-level state, every successful return is the compilation of this call's pattern)",
 	}
 	r.NotDecided = []string{"Go's regexp engine implements the parsed expression (trusted)", "'.' does not match newline in Go's default mode: paths are assumed to contain no newline", "the undocumented [...] character-class pass-through"}
@@ -751,6 +752,27 @@ func runC17(p *core.Prog, r *core.Result) {
 	}
 	if okPure {
 		r.OK("R17.6", "util.CompileGlobs#pure", pos, "every successful return is regexp.Compile of the pattern built in this call; no package-level state is touched")
+	}
+
+	// ---- R17.11 bytes stay bytes
+	{
+		nConv, nBad := 0, 0
+		for _, f := range core.WithAnons(fn) {
+			core.Instrs(f, func(in ssa.Instruction) {
+				cv, ok := in.(*ssa.Convert)
+				if !ok {
+					return
+				}
+				nConv++
+				from, isInt := cv.X.Type().Underlying().(*types.Basic)
+				to, isStr := cv.Type().Underlying().(*types.Basic)
+				if isInt && isStr && from.Info()&types.IsInteger != 0 && to.Info()&types.IsString != 0 {
+					nBad++
+					r.Bad("R17.11", fmt.Sprintf("util.CompileGlobs#int-to-string-%d", nBad), p.InstrPos(cv), "a %s of the pattern is converted to a string as if it were a code point: bytes above 0x7f (every non-ASCII character of the pattern) become two-byte sequences, so café/*.txt no longer matches café/menu.txt and matches cafÃ©/menu.txt instead", from.Name())
+				}
+			})
+		}
+		r.OK("R17.11", "util.CompileGlobs#conversions", pos, "%d conversion(s) in the translation examined: none turns an integer into a string (violations are listed separately)", nConv)
 	}
 
 	// ---- R17.5 callers
